@@ -29,6 +29,8 @@ from strawberryfields.program import Program
 from strawberryfields.tdm import TDMProgram, is_ptype
 from strawberryfields import ops
 
+from .utils import _constructor_params
+
 
 def get_expanded_statements(prog: xir.Program) -> Sequence[xir.Statement]:
     """Get a list of statements with all gate definitions expanded.
@@ -291,13 +293,13 @@ def to_xir(prog: Program, **kwargs) -> xir.Program:
         else:
             if add_decl:
                 if name not in [gdecl.name for gdecl in xir_prog.declarations["gate"]]:
-                    params = [f"p{i}" for i, _ in enumerate(cmd.op.p)]
+                    params = [f"p{i}" for i, _ in enumerate(_constructor_params(cmd.op))]
                     gate_decl = xir.Declaration(
                         name, type_="gate", params=params, wires=tuple(range(len(wires)))
                     )
                     xir_prog.add_declaration(gate_decl)
 
-            params = [_param_to_xir(a, prog) for a in cmd.op.p]
+            params = [_param_to_xir(a, prog) for a in _constructor_params(cmd.op)]
 
         # inverted gates are written with the XIR ``inv`` modifier
         op = xir.Statement(name, params, wires, inverse=bool(getattr(cmd.op, "dagger", False)))
